@@ -9,8 +9,8 @@ C15 — executable model of what `snowfakery/standard_plugins/Schedule.py` compu
 * `combine`: `dateutil.rruleset` (rrule ∪ rdate ∪ nested sets, minus exdate / exrule, sorted,
   duplicates dropped).
 * `Params` / `pluginRule` / `normUntil` / `normDateArg`: what `CalendarRule.__init__` does with
-  the recipe keywords *including its quirks* (`until`,
-  `include`, `exclude` dates are forced to UTC; a datetime-valued `until` loses its time).
+  the recipe keywords (date-valued `until` / `include` / `exclude` are placed at the start's time
+  of day in the start's zone; datetimes keep their own zone, naive ones mean UTC).
 
 Times are integers: a local wall-clock second count `L = ordinal * 86400 + second_of_day`
 (ordinal = `date.toordinal()`), an absolute instant `abs = L - utcoffset`.
@@ -36,7 +36,8 @@ structure WDay where
   deriving DecidableEq, Repr
 
 inductive Err
-  | badInterval      -- interval < 1 (dateutil does not terminate / misbehaves)
+  | badInterval      -- interval < 1 (dateutil would not terminate; since fix 66ecebf the plugin
+                     -- rejects it before the rule is built, see `pluginCheck`)
   | emptyRule        -- dateutil: "Invalid rrule byxxx generates an empty set."
   | badTime          -- datetime.time(...) rejects an hour/minute/second of the time set
   | outside          -- outside the modelled fragment (byweekno with WEEKLY; n-th weekday with |n| beyond
@@ -348,7 +349,7 @@ structure Params where
   sSod : Nat
   off : Int
   datePrecision : Bool             -- start given with date precision
-  interval : Nat
+  interval : Int                   -- as written in the recipe (may be 0 or negative)
   count : Option Nat
   untilArg : Option DateArg
   bymonth : Option (List Int)
@@ -404,15 +405,20 @@ def Params.intList (p : Params) (name : Kw) : Option (List Int) :=
   | .bysecond => p.bysecond
   | _ => none
 
-/-- `_normalize_until`: which wall-clock reading becomes the UTC `until` instant.
-    * date / date string → that date at the start's time of day;
-    * `datetime` object → **its date** at the start's time of day (`isinstance(until, date)`);
-    * datetime string → its own wall clock;
-    all three then `.replace(tzinfo=timezone.utc)`. -/
-def normUntil (sSod : Nat) : DateArg → Int
-  | .date d => (d : Int) * 86400 + sSod
-  | .dtObj d _ _ => (d : Int) * 86400 + sSod
-  | .dtStr d s _ => (d : Int) * 86400 + s
+/-- `CalendarRule._at_start_time`: a date at the start's time of day, in the start's zone -/
+def atStartTime (sSod : Nat) (off : Int) (d : Nat) : Inst := ⟨(d : Int) * 86400 + sSod - off, off⟩
+
+/-- `parse_datetimespec` on a datetime (object or string): its own wall clock and zone; a naive
+    one means UTC -/
+def parseDatetimespec (d s : Nat) (o : Option Int) : Inst := ⟨(d : Int) * 86400 + s - o.getD 0, o.getD 0⟩
+
+/-- `_normalize_until` (since fix eef84fd): datetime string or `datetime` object →
+    `parse_datetimespec`; date string or `date` → `_at_start_time`; then `.astimezone(utc)`, which
+    keeps the instant. -/
+def normUntil (sSod : Nat) (off : Int) : DateArg → Int
+  | .date d => (atStartTime sSod off d).abs
+  | .dtObj d s o => (parseDatetimespec d s o).abs
+  | .dtStr d s o => (parseDatetimespec d s o).abs
 
 /-- what the keyword means when read in the start's zone (dates) / its own zone (datetimes) -/
 def intendedUntil (sSod : Nat) (off : Int) : DateArg → Int
@@ -420,13 +426,13 @@ def intendedUntil (sSod : Nat) (off : Int) : DateArg → Int
   | .dtObj d s o => (d : Int) * 86400 + s - o.getD 0
   | .dtStr d s o => (d : Int) * 86400 + s - o.getD 0
 
-/-- `_process_special_cases` for one date-like `include` / `exclude` entry; `none` = a naive
-    `datetime`, which `rruleset` cannot compare with the aware rule values (TypeError) -/
-def normDateArg (sSod : Nat) : DateArg → Option Inst
-  | .date d => some ⟨(d : Int) * 86400 + sSod, 0⟩
-  | .dtObj d s (some o) => some ⟨(d : Int) * 86400 + s - o, o⟩
-  | .dtObj _ _ none => none
-  | .dtStr d _ _ => some ⟨(d : Int) * 86400 + sSod, 0⟩          -- `parse_date(str)`: date part only
+/-- `_process_special_cases` for one date-like `include` / `exclude` entry (since fix eef84fd):
+    `datetime` → `parse_datetimespec` (naive = UTC); `date` → `_at_start_time`; string →
+    `_at_start_time(parse_date(str))` (the date part only).  Never fails. -/
+def normDateArg (sSod : Nat) (off : Int) : DateArg → Option Inst
+  | .date d => some (atStartTime sSod off d)
+  | .dtObj d s o => some (parseDatetimespec d s o)
+  | .dtStr d _ _ => some (atStartTime sSod off d)
 
 def intendedDateArg (sSod : Nat) (off : Int) : DateArg → Option Inst
   | .date d => some ⟨(d : Int) * 86400 + sSod - off, off⟩
@@ -435,9 +441,9 @@ def intendedDateArg (sSod : Nat) (off : Int) : DateArg → Option Inst
 
 /-- the `rrule(...)` call of `CalendarRule.__init__`, driven by the wiring table -/
 def pluginRule (p : Params) : Rule :=
-  { freq := p.freq, sOrd := p.sOrd, sSod := p.sSod, off := p.off, interval := p.interval,
+  { freq := p.freq, sOrd := p.sOrd, sSod := p.sSod, off := p.off, interval := p.interval.toNat,
     count := p.count,
-    untilAbs := p.untilArg.map (normUntil p.sSod),
+    untilAbs := p.untilArg.map (normUntil p.sSod p.off),
     bymonth := p.intList (sourceOf .bymonth),
     bymonthday := p.intList (sourceOf .bymonthday),
     byyearday := p.intList (sourceOf .byyearday),
@@ -450,7 +456,7 @@ def pluginRule (p : Params) : Rule :=
 /-- the recurrence the recipe keywords describe (each keyword to its own dimension, dates read in
     the start's zone) -/
 def intendedRule (p : Params) : Rule :=
-  { freq := p.freq, sOrd := p.sOrd, sSod := p.sSod, off := p.off, interval := p.interval,
+  { freq := p.freq, sOrd := p.sOrd, sSod := p.sSod, off := p.off, interval := p.interval.toNat,
     count := p.count,
     untilAbs := p.untilArg.map (intendedUntil p.sSod p.off),
     bymonth := p.bymonth, bymonthday := p.bymonthday, byyearday := p.byyearday,
@@ -465,6 +471,35 @@ def gated (byweekno : Option (List Int)) : Bool :=
   match byweekno with
   | some l => !l.isEmpty
   | none => false
+
+/-! ### `CalendarRule.__init__` as a whole: the checks before the rule is built -/
+
+inductive PErr
+  | gated            -- undocumented keyword without the opt-in
+  | badInterval      -- `interval` is not a positive integer (DataGenValueError, fix 66ecebf)
+  | needsDatetime    -- sub-daily frequency with a date-precision start
+  | rule (e : Err)   -- raised by the recurrence engine
+  deriving DecidableEq, Repr
+
+/-- `if not isinstance(interval, int) or isinstance(interval, bool) or interval < 1` on an integer -/
+def intervalError (p : Params) : Bool := p.interval < 1
+
+/-- the checks of `__init__` in source order: gate, (start, lists, until), interval guard,
+    frequency; then the rule handed to `rrule(...)` -/
+def pluginCheck (p : Params) : Except PErr Rule :=
+  if gated p.byweekno then .error .gated
+  else if intervalError p then .error .badInterval
+  else if needsDatetime p then .error .needsDatetime
+  else .ok (pluginRule p)
+
+/-- the values of the event's own rule -/
+def pluginOcc (p : Params) (horizonAbs : Int) : Except PErr (List Nat) :=
+  match pluginCheck p with
+  | .error e => .error e
+  | .ok r =>
+    match occ r horizonAbs with
+    | .error e => .error (.rule e)
+    | .ok l => .ok l
 
 /-! ### the state cache behind `@memorable` (`evaluate_memorable_function`, `get_contextual_state`)
 
